@@ -426,6 +426,62 @@ def run_layout(name: str, spec: dict, pkg: str, core: str | None, g: pipeline.Ge
         g.cleanup()
 
 
+# ---------------------------------------------------------------- histories: a core package that already exists
+HISTORY_LAYOUTS = [("apis.alpha", "apis.beta", "shared.core"), ("alpha", "beta", "core"), ("a.b.alpha", "a.b.beta", "a.rt.core")]
+
+
+def corrupt_core(cd: Path, rng, rt: list[tuple[str, str, str]]) -> list[str]:
+    """truncate one runtime module, append to another, delete a third (what an older release, a local edit or an
+    interrupted run leave behind)"""
+    files = [cd.joinpath(*d.split("/")[1:]) for _, _, d in rt]
+    a, b, c = rng.sample(files, 3)
+    a.write_text(a.read_text()[: max(1, len(a.read_text()) // 3)])
+    b.write_text(b.read_text() + "\n# local edit\nSTALE = True\n")
+    c.unlink()
+    return [f"truncated {a.name}", f"edited {b.name}", f"deleted {c.name}"]
+
+
+def run_history(chk: Check, lay: tuple[str, str, str], scratch: Path, idx: int) -> list[dict]:
+    """client A, damage the shared core, client B, damage, regenerate A with force, damage, regenerate A without force.
+    After every generation that returns without error every runtime module must be byte-identical to the shipped one."""
+    pkg_a, pkg_b, core = lay
+    root = scratch / f"hist{idx}"
+    root.mkdir()
+    rt = tables_C12.runtime_files()
+    cd = root.joinpath(*core.split("."))
+    steps: list[str] = []
+    out: list[dict] = []
+
+    def gen(label: str, pkg: str, force: bool) -> None:
+        g = pipeline.generate(spec_minimal() if pkg == pkg_a else spec_errors(), package=pkg, core_package=core,
+                              force=force, root=root)
+        steps.append(f"{label}: generate {pkg} core={core} force={force} -> {'ok' if g.ok else 'error ' + str(g.error)[:80]}")
+        if not g.ok:
+            return          # the property speaks about generations that return without error
+        bad = {}
+        for module, fn, dst in rt:
+            emitted = cd.joinpath(*dst.split("/")[1:])
+            shipped = tables_C12.runtime_source(module, fn)
+            if not emitted.is_file():
+                bad[dst] = "missing"
+            elif sha(emitted) != sha(shipped):
+                bad[dst] = "differs from the shipped file"
+        out.append({"input": {"k": "history", "layout": list(lay), "steps": list(steps)}, "obs": bad,
+                    "oracle_fail": [f"after [{'; '.join(steps)}] core runtime file {d}: {w}" for d, w in sorted(bad.items())][:3]})
+
+    gen("1", pkg_a, True)
+    if cd.is_dir():
+        steps.append("damage: " + ", ".join(corrupt_core(cd, chk.rng, rt)))
+        gen("2", pkg_b, True)
+        steps.append("damage: " + ", ".join(corrupt_core(cd, chk.rng, rt)) if all(cd.joinpath(*d.split("/")[1:]).is_file() for _, _, d in rt) else "damage: skipped")
+        gen("3", pkg_a, True)
+        if all(cd.joinpath(*d.split("/")[1:]).is_file() for _, _, d in rt):
+            steps.append("damage: " + ", ".join(corrupt_core(cd, chk.rng, rt)))
+        gen("4", pkg_a, False)
+    shutil.rmtree(root, ignore_errors=True)
+    return out
+
+
 def main(chk: Check, replay: dict | None = None) -> int:
     if replay is not None:
         inp = replay["input"]
@@ -511,6 +567,15 @@ def main(chk: Check, replay: dict | None = None) -> int:
                               "obs": rows or [], "oracle_fail": []})
         stmt_cases = list(seen_stmt.values())
         cases += stmt_cases
+
+        # ---- 3. histories over a pre-existing (stale / damaged) shared core
+        hist = []
+        for i, lay in enumerate(HISTORY_LAYOUTS if chk.thorough else HISTORY_LAYOUTS[:2]):
+            hist += run_history(chk, lay, scratch, i)
+        for h in hist:
+            if h["oracle_fail"]:
+                chk.violation(h, h["oracle_fail"][0])
+        dist["history_generations_checked"] = len(hist)
 
         chk.cov["evaluations"] = len(cases)
         chk.cov["distinct_nontrivial"] = (
